@@ -72,7 +72,7 @@ func newPool() (*Pool, error) {
 	if err != nil {
 		return nil, core.Infra("cannot find own executable: %v", err)
 	}
-	return &Pool{exe: exe, Watchdog: 10 * time.Second, PerKiB: 2 * time.Millisecond}, nil
+	return &Pool{exe: exe, Watchdog: 20 * time.Second, PerKiB: 2 * time.Millisecond}, nil
 }
 
 func (p *Pool) start() (*worker, error) {
@@ -317,8 +317,10 @@ func (p *Pool) runCase(w *worker, req *Req) (*worker, *Result) {
 			}
 		}
 		timer.Stop()
-		// the case goes on without the call that killed the worker
-		if attempts >= 6 {
+		// the case goes on without the call that killed the worker; when the
+		// guarded call of a wiring did it, the rest of the walk would only
+		// run into the same thing
+		if attempts >= 6 || strings.HasPrefix(cur, "probe/") {
 			return w, res
 		}
 	}
